@@ -73,3 +73,24 @@ MUTANTS += [
     dict(id='c16-last-interior-skipped', props=['C16'], file=FB,
          old="    for i in range(mm, num_x - mm):", new="    for i in range(mm, num_x - mm - 1):"),
 ]
+
+MUTANTS += [
+    dict(id='c14-epsalg-parity', props=['C14'], file=EXT,
+         old='            estlim = epstab[n % 2]', new='            estlim = epstab[0]'),
+    dict(id='c14-shift-stride', props=['C14'], file=EXT,
+         old='        epstab[i_0:i_n:2] = epstab[i_0 + 2:i_n + 2:2]', new='        epstab[i_0:i_n] = epstab[i_0 + 2:i_n + 2]'),
+    dict(id='c14-limexp-parity', props=['C14'], file=EXT,
+         old='        n = 2 * (limexp // 2) + 1\n', new='        n = 2 * (limexp // 2)\n'),
+    dict(id='c14-floor-removed', props=['C14'], file=EXT,
+         old='        abserr = max(abserr, 5.0*_EPS*abs(result))\n', new=''),
+    dict(id='c14-undo-f7-fix', props=['C14'], edits=[
+        (EXT, '                n = 2 * i\n                # ***jump out of do-loop\n                # go to 100',
+         '                # ***jump out of do-loop\n                # go to 100'),
+        (EXT, '        if n == limexp - 1:\n            n = limexp - 2  # 2*(limexp//2) - 1\n        self._shift_table(epstab, n, newelm, old_n)\n        if not all_converged:\n',
+         '        if not all_converged:\n            if n == limexp - 1:\n                n = limexp - 2\n            self._shift_table(epstab, n, newelm, old_n)\n')]),
+    dict(id='c14-undo-f8-fix', props=['C14'], file=EXT,
+         old='abserr = max(6.0 * abs(result - epstab[0]), 5.0 * _EPS * abs(result))',
+         new='abserr = 6.0 * abs(result - epstab[0])'),
+    dict(id='c14-epsalg-guard', props=['C14'], file=EXT,
+         old='                if np.abs(delta) <= 1.0e-60:', new='                if np.abs(delta) <= 1.0e-6:'),
+]
